@@ -1359,6 +1359,9 @@ func DepthProg(r *prng.R, thorough bool) *Prog {
 		// yielding case that is left by break: the runtime's Breakable wrapper is the whole body
 		{"D14", fmt.Sprintf("for i := 0; i < n; i++ {\n\tswitch {\n\tcase i%%k == k-1:\n\t\t«Yield»(i)\n\t\tif i%%2 == 0 {\n\t\t\tbreak\n\t\t}\n\t\tvrt.E(%d)\n\tdefault:\n\t\tvrt.E(%d)\n\t}\n}", nt(), nt())},
 		{"D15", fmt.Sprintf("i := 0\nfor ; i < n; i++ {\n\tswitch {\n\tcase i%%k != k-1:\n\t\tvrt.E(%d)\n\t\tbreak\n\tdefault:\n\t\t«Yield»(i)\n\t\tif i > 3 {\n\t\t\tbreak\n\t\t}\n\t\t«Yield»(-i)\n\t}\n}", nt())},
+		// the loop HAS yielded (and been resumed) before its long quiet stretch starts
+		{"D16", fmt.Sprintf("for i := 0; i < n; i++ {\n\tvrt.E(%d)\n\tif i != 0 && i != n-1 && k != 0 {\n\t\tcontinue\n\t}\n\t«Yield»(i)\n}", nt())},
+		{"D17", fmt.Sprintf("i := -1\nfor i < n-1 {\n\ti++\n\tvrt.E(%d)\n\tif i == 0 || i == n-1 || k == 0 {\n\t\t«Yield»(i)\n\t}\n}", nt())},
 		{"D9", fmt.Sprintf("i := 0\nfor i < n {\n\ti++\n\tswitch {\n\tcase i%%k == 0:\n\t\t«Yield»(i)\n\tdefault:\n\t\tvrt.E(%d)\n\t}\n}", nt())},
 	}
 	var src, ref []string
